@@ -457,3 +457,38 @@ Definition close_marker (offset : N) : bytes :=
 Definition write_archive (ms : list (bytes * bytes)) : bytes :=
   let body := concat (map (fun m => add_member (fst m) (snd m)) ms) in
   body ++ close_marker (lenN body).
+
+(* ---- header writer: tarfile.stn / itn (octal branch) / TarInfo._create_header / create_gnu_header /
+   _create_gnu_long_header / get_info, as AioTarStream.addfile calls them through tarinfo.tobuf(GNU_FORMAT).
+   (ANCHORS, CPython: tarfile.TarInfo.tobuf, .create_gnu_header, ._create_header, ._create_gnu_long_header) ---- *)
+Fixpoint oct_digits (k : nat) (n : N) : bytes :=         (* "%0*o" % (k, n), n < 8^k *)
+  match k with
+  | O => []
+  | S k' => oct_digits k' (n / 8) ++ [48 + n mod 8]
+  end.
+Definition stn (s : bytes) (len : N) : bytes := takeN len s ++ zeros (len - lenN s).
+Definition itn8 (n : N) : bytes := oct_digits 7 n ++ [0].
+Definition itn12 (n : N) : bytes := oct_digits 11 n ++ [0].
+Definition GNU_MAGIC : bytes := [117; 115; 116; 97; 114; 32; 32; 0].          (* b"ustar  \0" *)
+Record hmeta := { m_uid : N; m_gid : N; m_mtime : N; m_uname : bytes; m_gname : bytes }.
+Definition meta0 : hmeta := {| m_uid := 0; m_gid := 0; m_mtime := 0; m_uname := []; m_gname := [] |}.
+(* bytes 0..148 and 156..512 of a header block; the checksum field sits between them *)
+Definition hdr_pre (name : bytes) (mode size : N) (mt : hmeta) : bytes :=
+  stn name 100 ++ itn8 mode ++ itn8 (m_uid mt) ++ itn8 (m_gid mt) ++ itn12 size ++ itn12 (m_mtime mt).
+Definition hdr_post (ty : N) (link : bytes) (mt : hmeta) : bytes :=
+  [ty] ++ stn link 100 ++ GNU_MAGIC ++ stn (m_uname mt) 32 ++ stn (m_gname mt) 32
+  ++ zeros 8 ++ zeros 8 ++ zeros 155 ++ zeros 12.
+Definition hdr_block (name : bytes) (mode size ty : N) (link : bytes) (mt : hmeta) : bytes :=
+  let pre := hdr_pre name mode size mt in
+  let post := hdr_post ty link mt in
+  pre ++ (oct_digits 6 (256 + sumN pre + sumN post) ++ [0; 32]) ++ post.
+Definition LONGLINK_NAME : bytes := [46;47;46;47;64;76;111;110;103;76;105;110;107].   (* "././@LongLink" *)
+Definition gnu_long (ty : N) (s : bytes) : bytes :=
+  let payload := s ++ [0] in
+  hdr_block LONGLINK_NAME 0 (lenN payload) ty [] meta0 ++ payload ++ zeros (pad512 (lenN payload)).
+(* tobuf(GNU_FORMAT): get_info appends "/" to directory names and masks the mode *)
+Definition tobuf (h : hdr) (mt : hmeta) : bytes :=
+  let name := if (h_type h =? T_DIR) && negb (ends_slash (h_name h)) then h_name h ++ [47] else h_name h in
+  (if 100 <? lenN (h_link h) then gnu_long T_GNULONGLINK (h_link h) else [])
+  ++ (if 100 <? lenN name then gnu_long T_GNULONGNAME name else [])
+  ++ hdr_block name (N.land (h_mode h) 4095) (h_size h) (h_type h) (h_link h) mt.
